@@ -515,6 +515,18 @@ class Categorical(Likelihood):
 
         return sum(tree_map(eval, primals, self.data))
 
+    def right_sqrt_metric(self, primals, tangents):
+        from jax.nn import softmax
+
+        # Explicit adjoint of `left_sqrt_metric` on the space of the logits.
+        # The default transposes w.r.t. `lsm_tangents_shape`, which for this
+        # likelihood is the shape of the data (one entry per distribution).
+        sqrtp = tree_map(partial(softmax, axis=self.axis), primals) ** 0.5
+        norm_term = tree_map(
+            partial(jnp.sum, axis=self.axis, keepdims=True), sqrtp**2 * tangents
+        )
+        return sqrtp * tangents - sqrtp * norm_term
+
     def metric(self, primals, tangents):
         from jax.nn import softmax
 
